@@ -38,7 +38,7 @@ def valid_values(s, rng, n=2):
             "integer": [(7, 7), (-2147483648, -2147483648), (2147483647, 2147483647), (0, 0)],
             "safelong": [(9007199254740991, 9007199254740991), (-9007199254740991, -9007199254740991), (5, 5)],
             "double": [(1.5, 1.5), ("NaN", "NaN"), ("Infinity", "Infinity"), ("-Infinity", "-Infinity"), (3, 3.0), (-0.0, -0.0),
-                       (1e300, 1e300)],
+                       (1e300, 1e300), (-3, -3.0), (-9007199254740993, -9007199254740992.0), (18446744073709551615, 18446744073709551616.0)],
             "boolean": [(True, True), (False, False)],
             "uuid": [(UUID, UUID)],
             "rid": [("ri.a.b.c.d", "ri.a.b.c.d"), ("ri.svc..type.Loc_1.x", "ri.svc..type.Loc_1.x")],
